@@ -1,17 +1,38 @@
 """
 Regenerates lean/PedalModel/Gen/SandboxIOGen.lean from the tree under test (C15).
 
-Read from the AST of pedal/sandbox/sandbox.py:
-  * the test of the `if` in Sandbox.append_output that guards the update of the line view
-      `raw_output` (the parameter)  -> Guard.own
-      `self.raw_output`             -> Guard.accumulated
-      no `if` around the extend     -> Guard.always
-      anything else                 -> Guard.unknown   (the theorems then fail)
-  * in Sandbox._track_inputs._input_tracker: the index popped from self.inputs
-      pop(0) -> front, pop() / pop(-1) -> back, anything else -> unknown
-    and the string constant assigned when the queue is empty (the default input).
-Only these three facts are translated; the control flow of the two functions is hand-modelled
-(PedalModel/SandboxIO.lean) and validated by the correspondence.
+Three facts are translated from pedal/sandbox/sandbox.py; each is READ from the AST (primary) and MEASURED on a
+fresh sandbox through the public API (cross-check, and fallback where the reading ends in `unknown`):
+
+  * the condition under which `Sandbox.append_output` touches the line view, as a boolean expression
+    (`GuardExpr`) over three observations of one call: own   = this execution's text is non-empty,
+                                                        prior = the raw output before the call is non-empty,
+                                                        acc   = the raw output after `+=` is non-empty.
+    Reading = a small path-wise symbolic execution of the method body: early returns, else-branches, negations,
+    `and`/`or`, conditional expressions, `bool(x)`, `len(x) > 0`, `x != ""`, flags kept in locals, walrus, private
+    helper methods of Sandbox (inlined, also when the guard or the extend lives in the helper), for-loops over a
+    `.split(sep)` result, `self.output.extend/append/+=`.  Whatever is not understood becomes `.unknown`.
+    The Lean obligation (`guard_sem`) evaluates the generated expression on all four observations, so every
+    expression that MEANS "own text non-empty" is accepted and every other one (accumulated, always, unknown) fails.
+  * which end of the queue the mocked input() takes its value from (front / back / unknown) and
+  * the string it returns when the queue is empty (the default input).
+    Reading = the function installed with `mock_function('input', ...)` is located (factory method -> returned
+    nested def / lambda / bound private method; the names `_track_inputs` / `_input_tracker` are only a fallback), every
+    value it can return is followed back through locals, conditional expressions, aliases of `self.inputs`
+    and private helper methods to its leaves: a call of the installed callable, `<queue>.pop(i)` / `<queue>[i]` +
+    `del <queue>[i]`, a string constant (also through class / module level constants).  One kind of pop and one
+    constant must remain and no leaf may be left unexplained; otherwise `unknown`.
+
+Measuring (probe): histories run through harness/sandboxio_common.run_real (pedal.sandbox.commands on a fresh
+sandbox): whether an execution (silent / writing, after a silent / writing one, several texts incl. whitespace-only)
+makes the line view longer; which values two reads get from queues of three lengths and what is left; what reads
+from an empty / exhausted queue return.  An inconsistent measurement is `unknown`.
+
+Combination, per fact: reading and measurement agree -> the reading; reading `unknown`, measurement definite ->
+the measurement ("probed"); both definite and different -> `unknown` (never guess); both unknown -> `unknown`.
+`unknown` makes `guard_sem` / `popQueue_cons` / `default_known` fail to build.
+
+The control flow around these facts stays hand-modelled (PedalModel/SandboxIO.lean) and validated by the correspondence.
 """
 import ast
 import hashlib
@@ -20,15 +41,72 @@ import os
 from common import LEAN_DIR, REPO, lean_str, write_if_changed
 
 OUT = os.path.join(LEAN_DIR, "PedalModel", "Gen", "SandboxIOGen.lean")
+MAX_INLINE = 4
 
 
-def _find_method(tree, cls, name):
-    for node in ast.walk(tree):
-        if isinstance(node, ast.ClassDef) and node.name == cls:
-            for sub in ast.walk(node):
-                if isinstance(sub, ast.FunctionDef) and sub.name == name:
-                    return sub
-    return None
+# --------------------------------------------------------------------------
+# the class under translation
+
+class Source:
+    def __init__(self, tree, cls="Sandbox"):
+        self.tree = tree
+        self.cls = None
+        self.methods = {}
+        self.class_consts = {}
+        self.module_consts = {}
+        for node in tree.body:
+            if isinstance(node, ast.ClassDef) and node.name == cls:
+                self.cls = node
+            for name, value in _const_assigns(node):
+                self.module_consts[name] = value
+        if self.cls is not None:
+            for node in self.cls.body:
+                if isinstance(node, (ast.FunctionDef, ast.AsyncFunctionDef)):
+                    self.methods[node.name] = node
+                for name, value in _const_assigns(node):
+                    self.class_consts[name] = value
+
+    def is_static(self, fn):
+        return any(isinstance(d, ast.Name) and d.id == "staticmethod" for d in fn.decorator_list)
+
+    def is_classmethod(self, fn):
+        return any(isinstance(d, ast.Name) and d.id == "classmethod" for d in fn.decorator_list)
+
+    def method_called(self, call):
+        """the Sandbox method a call `self.m(...)` / `Sandbox.m(...)` / `type(self).m(...)` refers to, or None"""
+        f = call.func
+        if isinstance(f, ast.Attribute) and f.attr in self.methods:
+            v = f.value
+            if isinstance(v, ast.Name) and v.id in ("self", "cls", self.cls.name):
+                return self.methods[f.attr]
+            if isinstance(v, ast.Call) and isinstance(v.func, ast.Name) and v.func.id == "type":
+                return self.methods[f.attr]
+            if isinstance(v, ast.Attribute) and v.attr == "__class__":
+                return self.methods[f.attr]
+        return None
+
+    def const_value(self, node):
+        """a compile-time constant: literal, `-literal`, class constant (`self.X` / `Sandbox.X`), module constant"""
+        if isinstance(node, ast.Constant):
+            return True, node.value
+        if isinstance(node, ast.UnaryOp) and isinstance(node.op, ast.USub) and isinstance(node.operand, ast.Constant) \
+                and isinstance(node.operand.value, (int, float)):
+            return True, -node.operand.value
+        if isinstance(node, ast.Attribute) and isinstance(node.value, ast.Name) \
+                and node.value.id in ("self", "cls", self.cls.name if self.cls else "") and node.attr in self.class_consts \
+                and node.attr not in self.methods:
+            return True, self.class_consts[node.attr]
+        if isinstance(node, ast.Name) and node.id in self.module_consts:
+            return True, self.module_consts[node.id]
+        return False, None
+
+
+def _const_assigns(node):
+    if isinstance(node, ast.Assign) and len(node.targets) == 1 and isinstance(node.targets[0], ast.Name) \
+            and isinstance(node.value, ast.Constant):
+        yield node.targets[0].id, node.value.value
+    if isinstance(node, ast.AnnAssign) and isinstance(node.target, ast.Name) and isinstance(node.value, ast.Constant):
+        yield node.target.id, node.value.value
 
 
 def _is_self_attr(node, attr):
@@ -36,88 +114,976 @@ def _is_self_attr(node, attr):
             and node.value.id == "self")
 
 
-def _mentions_output_extend(node):
-    for sub in ast.walk(node):
-        if isinstance(sub, ast.Call) and isinstance(sub.func, ast.Attribute) and sub.func.attr in ("extend", "append") \
-                and _is_self_attr(sub.func.value, "output"):
-            return True
-        if isinstance(sub, ast.AugAssign) and _is_self_attr(sub.target, "output"):
-            return True
-    return False
+def _walk_no_nested(node):
+    """ast.walk that does not descend into nested function / class definitions / lambdas (except the root)"""
+    todo = [node]
+    first = True
+    while todo:
+        n = todo.pop()
+        if not first and isinstance(n, (ast.FunctionDef, ast.AsyncFunctionDef, ast.ClassDef, ast.Lambda)):
+            continue
+        first = False
+        yield n
+        todo.extend(ast.iter_child_nodes(n))
 
 
-def guard_kind(tree):
-    fn = _find_method(tree, "Sandbox", "append_output")
-    if fn is None:
-        return "unknown"
-    param = fn.args.args[1].arg if len(fn.args.args) > 1 else None
-    for stmt in fn.body:
-        if isinstance(stmt, ast.If) and _mentions_output_extend(stmt):
-            if stmt.orelse:
-                return "unknown"
-            t = stmt.test
-            if isinstance(t, ast.Name) and t.id == param:
-                return "own"
-            if _is_self_attr(t, "raw_output"):
-                return "accumulated"
+# --------------------------------------------------------------------------
+# boolean expressions: ("own",) ("prior",) ("acc",) ("const", b) ("not", e) ("and", a, b) ("or", a, b) ("unknown", why)
+
+TRUE, FALSE = ("const", True), ("const", False)
+
+
+def b_unknown(why):
+    return ("unknown", why)
+
+
+def b_not(e):
+    if e[0] == "const":
+        return ("const", not e[1])
+    if e[0] == "not":
+        return e[1]
+    if e[0] == "unknown":
+        return e
+    return ("not", e)
+
+
+def b_and(a, b):
+    if a == FALSE or b == FALSE:
+        return FALSE
+    if a == TRUE:
+        return b
+    if b == TRUE:
+        return a
+    if a == b:
+        return a
+    return ("and", a, b)
+
+
+def b_or(a, b):
+    if a == TRUE or b == TRUE:
+        return TRUE
+    if a == FALSE:
+        return b
+    if b == FALSE:
+        return a
+    if a == b:
+        return a
+    return ("or", a, b)
+
+
+def b_eval(e, p, o):
+    """value on the observation (prior non-empty = p, own non-empty = o); None = not known"""
+    k = e[0]
+    if k == "own":
+        return o
+    if k == "prior":
+        return p
+    if k == "acc":
+        return p or o
+    if k == "const":
+        return e[1]
+    if k == "not":
+        v = b_eval(e[1], p, o)
+        return None if v is None else not v
+    if k in ("and", "or"):
+        x, y = b_eval(e[1], p, o), b_eval(e[2], p, o)
+        if x is None or y is None:
+            return None
+        return (x and y) if k == "and" else (x or y)
+    return None
+
+
+OBSERVATIONS = [(False, False), (False, True), (True, False), (True, True)]
+
+
+def b_table(e):
+    """tuple of values over OBSERVATIONS, or None if any is unknown"""
+    vals = tuple(b_eval(e, p, o) for p, o in OBSERVATIONS)
+    return None if any(v is None for v in vals) else vals
+
+
+def b_from_table(tab):
+    named = {b_table((k,)): (k,) for k in ("own", "prior", "acc")}
+    named[(True,) * 4] = TRUE
+    named[(False,) * 4] = FALSE
+    if tab in named:
+        return named[tab]
+    e = FALSE
+    for (p, o), v in zip(OBSERVATIONS, tab):
+        if v:
+            term = b_and(("prior",) if p else b_not(("prior",)), ("own",) if o else b_not(("own",)))
+            e = b_or(e, term)
+    return e
+
+
+def b_lean(e):
+    k = e[0]
+    if k in ("own", "prior", "acc"):
+        return "." + k
+    if k == "const":
+        return "(.const %s)" % ("true" if e[1] else "false")
+    if k == "not":
+        return "(.not %s)" % b_lean(e[1])
+    if k in ("and", "or"):
+        return "(.%s %s %s)" % (k, b_lean(e[1]), b_lean(e[2]))
+    return ".unknown"
+
+
+def b_text(e):
+    k = e[0]
+    if k in ("own", "prior", "acc"):
+        return k
+    if k == "const":
+        return str(e[1])
+    if k == "not":
+        return "not " + b_text(e[1])
+    if k in ("and", "or"):
+        return "(%s %s %s)" % (b_text(e[1]), k, b_text(e[2]))
+    return "unknown[%s]" % (e[1] if len(e) > 1 else "")
+
+
+def b_has_unknown(e):
+    return e[0] == "unknown" or any(isinstance(x, tuple) and b_has_unknown(x) for x in e[1:])
+
+
+# --------------------------------------------------------------------------
+# append_output: path-wise symbolic execution
+#
+# symbolic values: ("str", atom)  a string, non-empty iff atom (own / prior / acc)
+#                  ("len", atom)  an int, > 0 iff atom
+#                  ("const", v) | ("bool", bexpr) | ("other", why)
+
+class _State:
+    def __init__(self, env, raw="prior", ext=FALSE, aliases=None):
+        self.env = env              # local name -> (symbolic value, bexpr "iterating it yields an element")
+        self.raw = raw              # what `self.raw_output` is at this point: "prior" / "acc" / None (not understood)
+        self.ext = ext              # bexpr: the line view has been touched on this path
+        self.aliases = aliases or set()     # local names bound to `self.output`
+
+    def copy(self):
+        return _State(dict(self.env), self.raw, self.ext, set(self.aliases))
+
+
+class GuardReader:
+    def __init__(self, src):
+        self.src = src
+
+    # ---- the line view and statements that touch it
+    def _is_view(self, node, st):
+        return _is_self_attr(node, "output") or (isinstance(node, ast.Name) and node.id in st.aliases)
+
+    def _touches_view(self, node, st=None, depth=0, seen=None):
+        """does any code under `node` (helper methods followed) modify `self.output`?"""
+        seen = seen if seen is not None else set()
+        aliases = st.aliases if st is not None else set()
+
+        def view(n):
+            return _is_self_attr(n, "output") or (isinstance(n, ast.Name) and n.id in aliases)
+        for sub in ast.walk(node):
+            if isinstance(sub, ast.Call) and isinstance(sub.func, ast.Attribute) and view(sub.func.value) \
+                    and sub.func.attr in ("extend", "append", "insert", "__iadd__", "clear", "pop", "remove", "sort",
+                                          "reverse", "__setitem__", "__delitem__"):
+                return True
+            if isinstance(sub, ast.AugAssign) and (view(sub.target) or (isinstance(sub.target, ast.Subscript)
+                                                                       and view(sub.target.value))):
+                return True
+            if isinstance(sub, (ast.Assign, ast.Delete)):
+                for t in sub.targets:
+                    if view(t) or (isinstance(t, ast.Subscript) and view(t.value)):
+                        return True
+            if isinstance(sub, ast.Call):
+                m = self.src.method_called(sub)
+                if m is not None and m.name not in seen and depth < 8:
+                    seen.add(m.name)
+                    if self._touches_view(m, None, depth + 1, seen):
+                        return True
+                # the view handed to foreign code
+                if m is None and any(view(a) for a in list(sub.args) + [k.value for k in sub.keywords]) \
+                        and not (isinstance(sub.func, ast.Name) and sub.func.id in ("len", "list", "tuple", "bool", "str",
+                                                                                    "repr", "print", "id", "type")):
+                    return True
+        return False
+
+    # ---- expressions
+    def sym(self, node, st):
+        if isinstance(node, ast.Name):
+            if node.id in st.env:
+                return st.env[node.id][0]
+            ok, v = self.src.const_value(node)
+            return ("const", v) if ok else ("other", "name " + node.id)
+        if _is_self_attr(node, "raw_output"):
+            return ("str", st.raw) if st.raw else ("other", "self.raw_output after an update that was not understood")
+        ok, v = self.src.const_value(node)
+        if ok:
+            return ("const", v)
+        if isinstance(node, ast.Call) and isinstance(node.func, ast.Name) and len(node.args) == 1 and not node.keywords:
+            inner = self.sym(node.args[0], st)
+            if node.func.id == "bool":
+                return ("bool", self.truth(inner))
+            if node.func.id == "len" and inner[0] == "str":
+                return ("len", inner[1])
+            if node.func.id == "len" and inner[0] == "const" and isinstance(inner[1], (str, list, tuple)):
+                return ("const", len(inner[1]))
+            if node.func.id == "str" and inner[0] == "str":
+                return inner
+        if isinstance(node, (ast.UnaryOp, ast.BoolOp, ast.Compare, ast.IfExp, ast.NamedExpr)):
+            if isinstance(node, ast.NamedExpr):
+                v = self.sym(node.value, st)
+                st.env[node.target.id] = (v, self.ne(node.value, st))
+                return v
+            if isinstance(node, ast.IfExp):
+                c = self.test(node.test, st)
+                a, b = self.sym(node.body, st), self.sym(node.orelse, st)
+                if c == TRUE:
+                    return a
+                if c == FALSE:
+                    return b
+                if a == b:
+                    return a
+            if isinstance(node, ast.UnaryOp) and not isinstance(node.op, ast.Not):
+                return ("other", ast.unparse(node))
+            return ("bool", self.test(node, st))
+        return ("other", ast.unparse(node)[:60])
+
+    def truth(self, v):
+        if v[0] in ("str", "len"):
+            return (v[1],)
+        if v[0] == "const":
+            try:
+                return ("const", bool(v[1]))
+            except Exception:
+                return b_unknown("truth of constant")
+        if v[0] == "bool":
+            return v[1]
+        return b_unknown(v[1])
+
+    def test(self, node, st):
+        if isinstance(node, ast.UnaryOp) and isinstance(node.op, ast.Not):
+            return b_not(self.test(node.operand, st))
+        if isinstance(node, ast.BoolOp):
+            parts = [self.test(v, st) for v in node.values]
+            acc = parts[0]
+            for p in parts[1:]:
+                acc = b_and(acc, p) if isinstance(node.op, ast.And) else b_or(acc, p)
+            return acc
+        if isinstance(node, ast.IfExp):
+            c, a, b = self.test(node.test, st), self.test(node.body, st), self.test(node.orelse, st)
+            return b_or(b_and(c, a), b_and(b_not(c), b))
+        if isinstance(node, ast.Compare) and len(node.ops) == 1:
+            return self._compare(self.sym(node.left, st), node.ops[0], self.sym(node.comparators[0], st), node)
+        return self.truth(self.sym(node, st))
+
+    _FLIP = {ast.Lt: ast.Gt, ast.Gt: ast.Lt, ast.LtE: ast.GtE, ast.GtE: ast.LtE, ast.Eq: ast.Eq, ast.NotEq: ast.NotEq}
+
+    def _compare(self, left, op, right, node):
+        why = b_unknown(ast.unparse(node)[:60])
+        if left[0] == "const" and right[0] != "const":
+            flipped = self._FLIP.get(type(op))
+            if flipped is None:
+                return why
+            left, right, op = right, left, flipped()
+        if left[0] == "const" and right[0] == "const":
+            try:
+                fn = {ast.Eq: lambda a, b: a == b, ast.NotEq: lambda a, b: a != b, ast.Lt: lambda a, b: a < b,
+                      ast.LtE: lambda a, b: a <= b, ast.Gt: lambda a, b: a > b, ast.GtE: lambda a, b: a >= b}[type(op)]
+                return ("const", bool(fn(left[1], right[1])))
+            except Exception:
+                return why
+        if right[0] != "const":
+            return why
+        c = right[1]
+        if left[0] == "str" and isinstance(c, str) and c == "":
+            if isinstance(op, ast.NotEq):
+                return (left[1],)
+            if isinstance(op, ast.Eq):
+                return b_not((left[1],))
+            return why
+        if left[0] == "len" and isinstance(c, int) and not isinstance(c, bool):
+            atom = (left[1],)
+            # len(x) is a natural number: decide `len(x) op c` from "x is non-empty" where that is possible
+            if isinstance(op, ast.Gt) and c == 0 or isinstance(op, ast.GtE) and c == 1 or isinstance(op, ast.NotEq) and c == 0:
+                return atom
+            if isinstance(op, ast.Eq) and c == 0 or isinstance(op, ast.Lt) and c == 1 or isinstance(op, ast.LtE) and c == 0:
+                return b_not(atom)
+            if isinstance(op, ast.GtE) and c <= 0 or isinstance(op, ast.Gt) and c < 0 or isinstance(op, ast.NotEq) and c < 0:
+                return TRUE
+            if isinstance(op, ast.Lt) and c <= 0 or isinstance(op, ast.LtE) and c < 0 or isinstance(op, ast.Eq) and c < 0:
+                return FALSE
+        return why
+
+    def ne(self, node, st, depth=0):
+        """bexpr: iterating over the value of `node` yields at least one element (`unknown` where that is not certain):
+        `<x>.split(sep)` with an explicit separator always does; literals, comprehensions without filter, list()/tuple()/...
+        of such a value, conditional expressions, `a + b`, results of pure private helpers, locals (their value at binding)"""
+        why = b_unknown("may be empty: " + ast.unparse(node)[:50])
+        if depth > 6:
+            return why
+        if isinstance(node, ast.Name):
+            return st.env[node.id][1] if node.id in st.env else why
+        if isinstance(node, ast.IfExp):
+            c = self.test(node.test, st)
+            return b_or(b_and(c, self.ne(node.body, st, depth + 1)), b_and(b_not(c), self.ne(node.orelse, st, depth + 1)))
+        if isinstance(node, (ast.List, ast.Tuple, ast.Set)):
+            if any(isinstance(e, ast.Starred) for e in node.elts):
+                return why
+            return ("const", len(node.elts) > 0)
+        if isinstance(node, ast.BinOp) and isinstance(node.op, ast.Add):
+            return b_or(self.ne(node.left, st, depth + 1), self.ne(node.right, st, depth + 1))
+        if isinstance(node, ast.Call):
+            f = node.func
+            if isinstance(f, ast.Attribute) and f.attr in ("split", "rsplit"):
+                sep = node.args[0] if node.args else next((k.value for k in node.keywords if k.arg == "sep"), None)
+                return TRUE if sep is not None and not (isinstance(sep, ast.Constant) and sep.value is None) else why
+            if isinstance(f, ast.Name) and f.id in ("list", "tuple", "reversed", "enumerate", "sorted") and len(node.args) >= 1:
+                return self.ne(node.args[0], st, depth + 1)
+            m = self.src.method_called(node)
+            if m is not None and not self._touches_view(m) and not self.src.is_classmethod(m):
+                rets = [r for r in _walk_no_nested(m) if isinstance(r, ast.Return)]
+                if rets and all(r.value is not None for r in rets):
+                    inner = _State(self._bind(m, node, st), st.raw)
+                    for stmt in m.body:      # straight-line locals of the helper
+                        if isinstance(stmt, ast.Assign) and len(stmt.targets) == 1 and isinstance(stmt.targets[0], ast.Name):
+                            inner.env[stmt.targets[0].id] = self.bound(stmt.value, inner)
+                    acc = TRUE
+                    for r in rets:
+                        acc = b_and(acc, self.ne(r.value, inner, depth + 1))
+                    return acc
+            return why
+        if isinstance(node, (ast.ListComp, ast.GeneratorExp)) and len(node.generators) == 1 \
+                and not node.generators[0].ifs:
+            return self.ne(node.generators[0].iter, st, depth + 1)
+        v = self.sym(node, st)
+        if v[0] == "str":
+            return (v[1],)
+        if v[0] == "const" and isinstance(v[1], (str, tuple, list)):
+            return ("const", len(v[1]) > 0)
+        return why
+
+    def bound(self, node, st):
+        """what a local bound to the value of `node` stands for: (symbolic value, yields-an-element bexpr)"""
+        return (self.sym(node, st), self.ne(node, st))
+
+    # ---- statements
+    def _bind(self, fn, call, st):
+        """environment of an inlined helper: parameter -> what the argument stands for"""
+        params = [a.arg for a in fn.args.posonlyargs + fn.args.args]
+        if not self.src.is_static(fn) and params:
+            params = params[1:]
+        env = {}
+        for name, arg in zip(params, call.args):
+            env[name] = (("other", "starred"), b_unknown("starred")) if isinstance(arg, ast.Starred) else self.bound(arg, st)
+        for k in call.keywords:
+            if k.arg is not None:
+                env[k.arg] = self.bound(k.value, st)
+        # defaults of parameters that were not passed
+        defaults = fn.args.defaults
+        allp = [a.arg for a in fn.args.posonlyargs + fn.args.args]
+        for name, d in zip(allp[len(allp) - len(defaults):], defaults):
+            if name not in env and name != "self":
+                env[name] = self.bound(d, _State({}))
+        return env
+
+    def block(self, stmts, st, depth):
+        """-> list of (path condition, state, flow) with flow in next / return"""
+        paths = [(TRUE, st, "next")]
+        for stmt in stmts:
+            out = []
+            for cond, s, flow in paths:
+                if flow != "next":
+                    out.append((cond, s, flow))
+                    continue
+                for c2, s2, f2 in self.stmt(stmt, s, depth):
+                    c = b_and(cond, c2)
+                    if c != FALSE:
+                        out.append((c, s2, f2))
+            paths = out
+            if len(paths) > 256:
+                raise _TooComplex("more than 256 paths")
+        return paths
+
+    def stmt(self, node, st, depth):
+        one = lambda s, flow="next": [(TRUE, s, flow)]      # noqa: E731
+        if isinstance(node, ast.Pass) or (isinstance(node, ast.Expr) and isinstance(node.value, ast.Constant)):
+            return one(st)
+        if isinstance(node, ast.Return):
+            if node.value is not None and self._touches_view(node.value, st):
+                st.ext = b_or(st.ext, b_unknown("return value touches the line view"))
+            return one(st, "return")
+        if isinstance(node, ast.If):
+            base = st.copy()
+            c = self.test(node.test, base)            # (a walrus in the test binds in both branches)
+            res = []
+            if c != FALSE:
+                for c2, s2, f2 in self.block(node.body, base.copy(), depth):
+                    res.append((b_and(c, c2), s2, f2))
+            if c != TRUE:
+                for c2, s2, f2 in self.block(node.orelse, base.copy(), depth):
+                    res.append((b_and(b_not(c), c2), s2, f2))
+            return res
+        if isinstance(node, ast.With):
+            if any(self._touches_view(i.context_expr, st) for i in node.items):
+                st.ext = b_or(st.ext, b_unknown("with-item touches the line view"))
+            return self.block(node.body, st, depth)
+        if isinstance(node, ast.Try) and not any(self._touches_view(h, st) for h in node.handlers):
+            # the normal (no exception) flow; handlers that cannot reach the line view do not matter for the fact
+            res = []
+            for c1, s1, f1 in self.block(node.body + node.orelse, st, depth):
+                for c2, s2, f2 in self.block(node.finalbody, s1, depth):
+                    res.append((b_and(c1, c2), s2, f1 if f2 == "next" else f2))
+            return res
+        # -- raw output bookkeeping (only to know what `self.raw_output` means in a later test)
+        if isinstance(node, ast.AugAssign) and _is_self_attr(node.target, "raw_output"):
+            v = self.sym(node.value, st)
+            st.raw = "acc" if (isinstance(node.op, ast.Add) and v == ("str", "own") and st.raw == "prior") else None
+            return one(st)
+        if isinstance(node, ast.Assign) and len(node.targets) == 1 and _is_self_attr(node.targets[0], "raw_output"):
+            v = node.value
+            ok = (isinstance(v, ast.BinOp) and isinstance(v.op, ast.Add) and _is_self_attr(v.left, "raw_output")
+                  and self.sym(v.right, st) == ("str", "own") and st.raw == "prior")
+            if not ok and isinstance(v, ast.Call) and isinstance(v.func, ast.Attribute) and v.func.attr == "join" \
+                    and isinstance(v.func.value, ast.Constant) and v.func.value.value == "" and len(v.args) == 1 \
+                    and isinstance(v.args[0], (ast.List, ast.Tuple)) and len(v.args[0].elts) == 2 \
+                    and _is_self_attr(v.args[0].elts[0], "raw_output") \
+                    and self.sym(v.args[0].elts[1], st) == ("str", "own") and st.raw == "prior":
+                ok = True
+            st.raw = "acc" if ok else None
+            return one(st)
+        # -- the line view
+        grows = self._extension(node, st)
+        if grows is not None:
+            st.ext = b_or(st.ext, grows)
+            return one(st)
+        if isinstance(node, ast.Expr) and isinstance(node.value, ast.Call):
+            m = self.src.method_called(node.value)
+            if m is not None and self._touches_view(m):
+                if depth >= MAX_INLINE or self.src.is_classmethod(m):
+                    st.ext = b_or(st.ext, b_unknown("helper nesting"))
+                    return one(st)
+                inner = _State(self._bind(m, node.value, st), st.raw, st.ext)
+                res = []
+                for c2, s2, _flow in self.block(m.body, inner, depth + 1):
+                    back = st.copy()
+                    back.ext, back.raw = s2.ext, s2.raw
+                    res.append((c2, back, "next"))
+                return res
+        if isinstance(node, ast.For) and self._touches_view(node, st):
+            if not node.orelse and not any(isinstance(x, (ast.Break, ast.Continue)) for x in ast.walk(node)):
+                runs = self.ne(node.iter, st)      # the body runs at least once
+                body_state = st.copy()
+                for t in ast.walk(node.target):
+                    if isinstance(t, ast.Name):
+                        body_state.env[t.id] = (("other", "loop variable"), b_unknown("loop variable"))
+                res = self.block(node.body, body_state, depth)
+                # the first iteration decides whether the view grows, provided every path through the body falls
+                # through (further iterations only repeat the body) and the body's decision does not depend on the item
+                if all(f == "next" for _, _, f in res):
+                    out = [(b_and(runs, c2), s2, f2) for c2, s2, f2 in res]
+                    if runs != TRUE:
+                        out.append((b_not(runs), st, "next"))
+                    return out
+            st.ext = b_or(st.ext, b_unknown("loop that touches the line view"))
+            return one(st)
+        if isinstance(node, ast.Assign) and len(node.targets) == 1 and isinstance(node.targets[0], ast.Name) \
+                and not self._touches_view(node.value, st):
+            name = node.targets[0].id
+            if _is_self_attr(node.value, "output"):
+                st.aliases.add(name)
+            else:
+                st.aliases.discard(name)
+            st.env[name] = self.bound(node.value, st)
+            return one(st)
+        if isinstance(node, ast.AnnAssign) and isinstance(node.target, ast.Name) and node.value is not None \
+                and not self._touches_view(node.value, st):
+            st.env[node.target.id] = self.bound(node.value, st)
+            return one(st)
+        # -- anything else: harmless unless it can reach the line view; locals it (re)binds are forgotten
+        if self._touches_view(node, st):
+            st.ext = b_or(st.ext, b_unknown("statement touches the line view: " + ast.unparse(node)[:50]))
+        for sub in ast.walk(node):
+            if isinstance(sub, ast.Name) and isinstance(sub.ctx, (ast.Store, ast.Del)):
+                st.env[sub.id] = (("other", "rebound"), b_unknown("rebound"))
+                st.aliases.discard(sub.id)
+            if isinstance(sub, (ast.Return, ast.Raise)) and not isinstance(node, ast.Raise):
+                st.ext = b_or(st.ext, b_unknown("control flow inside " + type(node).__name__))
+        if isinstance(node, ast.Raise):
+            return one(st, "return")
+        return one(st)
+
+    def _extension(self, node, st):
+        """None, or - for a statement that appends to the line view - the bexpr "it appends at least one entry"
+        (WHAT it appends is the hand-modelled part)"""
+        if isinstance(node, ast.Expr) and isinstance(node.value, ast.Call) and isinstance(node.value.func, ast.Attribute) \
+                and self._is_view(node.value.func.value, st) and not node.value.keywords and len(node.value.args) == 1:
+            if node.value.func.attr == "append":
+                return TRUE
+            if node.value.func.attr in ("extend", "__iadd__"):
+                return self.ne(node.value.args[0], st)
+        if isinstance(node, ast.AugAssign) and isinstance(node.op, ast.Add) and self._is_view(node.target, st):
+            return self.ne(node.value, st)
+        if isinstance(node, ast.Assign) and len(node.targets) == 1:
+            t, v = node.targets[0], node.value
+            if self._is_view(t, st) and isinstance(v, ast.BinOp) and isinstance(v.op, ast.Add) and self._is_view(v.left, st):
+                return self.ne(v.right, st)
+            # self.output[len(self.output):] = lines
+            if isinstance(t, ast.Subscript) and self._is_view(t.value, st) and isinstance(t.slice, ast.Slice) \
+                    and t.slice.upper is None and t.slice.step is None and isinstance(t.slice.lower, ast.Call) \
+                    and isinstance(t.slice.lower.func, ast.Name) and t.slice.lower.func.id == "len" \
+                    and len(t.slice.lower.args) == 1 and self._is_view(t.slice.lower.args[0], st):
+                return self.ne(v, st)
+        return None
+
+    def read(self):
+        fn = self.src.methods.get("append_output")
+        if fn is None:
+            return b_unknown("Sandbox.append_output not found")
+        params = [a.arg for a in fn.args.posonlyargs + fn.args.args]
+        if len(params) < 2:
+            return b_unknown("append_output has no text parameter")
+        st = _State({params[1]: (("str", "own"), ("own",))})
+        try:
+            paths = self.block(fn.body, st, 0)
+        except _TooComplex as e:
+            return b_unknown(str(e))
+        guard = FALSE
+        for cond, s, _flow in paths:
+            guard = b_or(guard, b_and(cond, s.ext))
+        return guard
+
+
+class _TooComplex(Exception):
+    pass
+
+
+# --------------------------------------------------------------------------
+# the mocked input(): which end is popped, what is the default
+
+PARAM = "<parameter>"      # marker in TrackerReader._assignments: the name is a parameter of the function
+
+
+class TrackerReader:
+    def __init__(self, src):
+        self.src = src
+        self.notes = []
+
+    # ---- locate the function that is installed as `input`
+    def locate(self):
+        """-> list of candidate (function-like node, enclosing factory or None)"""
+        src = self.src
+        if src.cls is None:
+            return []
+        for call in ast.walk(src.cls):
+            if isinstance(call, ast.Call) and isinstance(call.func, ast.Attribute) and call.func.attr == "mock_function" \
+                    and len(call.args) >= 2 and isinstance(call.args[0], ast.Constant) and call.args[0].value == "input":
+                found = self._resolve_callable(call.args[1], None, 0)
+                if found:
+                    self.notes.append("located through mock_function('input', ...)")
+                    return found
+        fac = src.methods.get("_track_inputs")
+        if fac is not None:
+            for sub in fac.body:
+                if isinstance(sub, ast.FunctionDef) and sub.name == "_input_tracker":
+                    self.notes.append("located by name")
+                    return [(sub, fac)]
+        return []
+
+    def _resolve_callable(self, node, scope, depth):
+        """the function definitions an expression that evaluates to a callable may denote"""
+        src = self.src
+        if depth > 4:
+            return []
+        if isinstance(node, ast.Lambda):
+            return [(node, scope)]
+        if isinstance(node, ast.Attribute) and isinstance(node.value, ast.Name) and node.value.id == "self" \
+                and node.attr in src.methods:
+            return [(src.methods[node.attr], None)]
+        if isinstance(node, ast.Name) and scope is not None:
+            for sub in ast.walk(scope):
+                if isinstance(sub, ast.FunctionDef) and sub is not scope and sub.name == node.id:
+                    return [(sub, scope)]
+            vals = [s.value for s in ast.walk(scope) if isinstance(s, ast.Assign) and len(s.targets) == 1
+                    and isinstance(s.targets[0], ast.Name) and s.targets[0].id == node.id]
+            if len(vals) == 1:
+                return self._resolve_callable(vals[0], scope, depth + 1)
+            return []
+        if isinstance(node, ast.Call):
+            m = src.method_called(node)
+            if m is not None:      # a factory: what it returns
+                out = []
+                rets = [r for r in _walk_no_nested(m) if isinstance(r, ast.Return) and r.value is not None]
+                for r in rets:
+                    got = self._resolve_callable(r.value, m, depth + 1)
+                    if not got:
+                        return []
+                    out += got
+                return out
+            f = node.func
+            is_partial = (isinstance(f, ast.Name) and f.id == "partial") or (isinstance(f, ast.Attribute) and f.attr == "partial")
+            if is_partial and node.args:
+                return self._resolve_callable(node.args[0], scope, depth + 1)
+        return []
+
+    # ---- leaves of the returned value
+    def _queue_names(self, fn):
+        """local names bound (only) to `self.inputs` inside fn"""
+        binds = {}
+        for sub in _walk_no_nested(fn):
+            if isinstance(sub, ast.Assign):
+                for t in sub.targets:
+                    for n in ast.walk(t):
+                        if isinstance(n, ast.Name):
+                            binds.setdefault(n.id, []).append(sub.value if t is n else None)
+            elif isinstance(sub, (ast.AugAssign, ast.AnnAssign)) and isinstance(sub.target, ast.Name):
+                binds.setdefault(sub.target.id, []).append(None)
+            elif isinstance(sub, ast.NamedExpr):
+                binds.setdefault(sub.target.id, []).append(sub.value)
+            elif isinstance(sub, (ast.For, ast.comprehension)):
+                for n in ast.walk(sub.target):
+                    if isinstance(n, ast.Name):
+                        binds.setdefault(n.id, []).append(None)
+        return {name for name, vals in binds.items() if vals and all(v is not None and _is_self_attr(v, "inputs") for v in vals)}
+
+    def _assignments(self, fn, name):
+        """every value the local `name` can be given inside fn (None = a binding that is not understood)"""
+        vals = []
+        params = set()
+        if not isinstance(fn, ast.Lambda):
+            a = fn.args
+            params = {x.arg for x in a.posonlyargs + a.args + a.kwonlyargs} | {x.arg for x in (a.vararg, a.kwarg) if x}
+        if name in params:
+            vals.append(PARAM)
+        for sub in _walk_no_nested(fn):
+            if isinstance(sub, ast.Assign):
+                for t in sub.targets:
+                    if isinstance(t, ast.Name) and t.id == name:
+                        vals.append(sub.value)
+                    elif any(isinstance(n, ast.Name) and n.id == name for n in ast.walk(t)):
+                        vals.append(None)
+            elif isinstance(sub, ast.AnnAssign) and isinstance(sub.target, ast.Name) and sub.target.id == name:
+                vals.append(sub.value)
+            elif isinstance(sub, ast.AugAssign) and isinstance(sub.target, ast.Name) and sub.target.id == name:
+                vals.append(None)
+            elif isinstance(sub, ast.NamedExpr) and sub.target.id == name:
+                vals.append(sub.value)
+            elif isinstance(sub, (ast.For, ast.comprehension, ast.withitem, ast.ExceptHandler)):
+                tgt = getattr(sub, "target", None) or getattr(sub, "optional_vars", None)
+                if isinstance(tgt, ast.AST) and any(isinstance(n, ast.Name) and n.id == name for n in ast.walk(tgt)):
+                    vals.append(None)
+                if isinstance(sub, ast.ExceptHandler) and sub.name == name:
+                    vals.append(None)
+        return vals
+
+    def _index_end(self, args, fn):
+        """front / back / unknown for the index argument list of pop / a subscript"""
+        if not args:
+            return "back"
+        if len(args) != 1:
             return "unknown"
-        if _mentions_output_extend(stmt):
-            return "always"
-    return "unknown"
+        node = args[0]
+        ok, v = self.src.const_value(node)
+        if not ok and isinstance(node, ast.Name):
+            vals = self._assignments(fn, node.id)
+            if len(vals) == 1 and isinstance(vals[0], ast.AST):
+                ok, v = self.src.const_value(vals[0])
+        if ok and isinstance(v, int) and not isinstance(v, bool):
+            return {0: "front", -1: "back"}.get(v, "unknown")
+        # len(q) - 1
+        if isinstance(node, ast.BinOp) and isinstance(node.op, ast.Sub) and isinstance(node.right, ast.Constant) \
+                and node.right.value == 1 and isinstance(node.left, ast.Call) and isinstance(node.left.func, ast.Name) \
+                and node.left.func.id == "len":
+            return "back"
+        return "unknown"
 
+    def leaves(self, node, fn, queues, depth, seen, args=None):
+        """-> list of ("callable",) | ("pop", end) | ("peek", end) | ("const", str) | ("unknown", why)
+        `args`: for an inlined helper, parameter name -> (argument node, the caller's fn, queues, args)"""
+        args = args or {}
+        is_queue = lambda n: _is_self_attr(n, "inputs") or (isinstance(n, ast.Name) and n.id in queues)    # noqa: E731
+        rec = lambda n: self.leaves(n, fn, queues, depth, seen, args)      # noqa: E731
+        if node is None:
+            return [("unknown", "binding not understood")]
+        if isinstance(node, ast.IfExp):
+            return rec(node.body) + rec(node.orelse)
+        if isinstance(node, ast.NamedExpr):
+            return rec(node.value)
+        ok, v = self.src.const_value(node)
+        if ok:
+            return [("const", v)] if isinstance(v, str) else [("unknown", "constant %r" % (v,))]
+        if isinstance(node, ast.Name):
+            key = (id(fn), node.id)
+            if key in seen:
+                return []
+            seen = seen | {key}
+            vals = self._assignments(fn, node.id)
+            if not vals:
+                return [("unknown", "free name " + node.id)]
+            out = []
+            for v in vals:
+                if v is PARAM:
+                    if node.id in args:
+                        anode, afn, aqueues, aargs = args[node.id]
+                        out += self.leaves(anode, afn, aqueues, depth, seen, aargs)
+                    else:
+                        out.append(("unknown", "parameter " + node.id))
+                else:
+                    out += self.leaves(v, fn, queues, depth, seen, args)
+            return out
+        if isinstance(node, ast.Call):
+            f = node.func
+            if is_queue(f):
+                return [("callable",)]
+            if isinstance(f, ast.Attribute) and f.attr == "pop" and is_queue(f.value) and not node.keywords:
+                return [("pop", self._index_end(node.args, fn))]
+            m = self.src.method_called(node)
+            if m is not None and depth < MAX_INLINE:
+                rets = [r for r in _walk_no_nested(m) if isinstance(r, ast.Return)]
+                if not rets:
+                    return [("unknown", "helper without return")]
+                params = [a.arg for a in m.args.posonlyargs + m.args.args]
+                if not self.src.is_static(m) and params:
+                    params = params[1:]
+                bound = {}
+                for name, arg in zip(params, node.args):
+                    if not isinstance(arg, ast.Starred):
+                        bound[name] = (arg, fn, queues, args)
+                for k in node.keywords:
+                    if k.arg is not None:
+                        bound[k.arg] = (k.value, fn, queues, args)
+                out = []
+                q2 = self._queue_names(m)
+                self._inlined.append(m)
+                for r in rets:
+                    out += self.leaves(r.value, m, q2, depth + 1, seen, bound) if r.value is not None \
+                        else [("unknown", "bare return")]
+                return out
+            return [("unknown", "call " + ast.unparse(node)[:50])]
+        if isinstance(node, ast.Subscript) and is_queue(node.value) and not isinstance(node.slice, ast.Slice):
+            return [("peek", self._index_end([node.slice], fn))]
+        return [("unknown", ast.unparse(node)[:50])]
 
-def tracker_facts(tree):
-    fn = _find_method(tree, "Sandbox", "_track_inputs")
-    pop_end, default = "unknown", None
-    if fn is None:
+    def _removals(self, fns):
+        """ends removed by statements: `del q[i]`, a pop whose value is dropped"""
+        ends = []
+        for fn in fns:
+            queues = self._queue_names(fn)
+            is_queue = lambda n: _is_self_attr(n, "inputs") or (isinstance(n, ast.Name) and n.id in queues)    # noqa: E731
+            for sub in _walk_no_nested(fn):
+                if isinstance(sub, ast.Delete):
+                    for t in sub.targets:
+                        if isinstance(t, ast.Subscript) and is_queue(t.value):
+                            ends.append("unknown" if isinstance(t.slice, ast.Slice) else self._index_end([t.slice], fn))
+                if isinstance(sub, ast.Expr) and isinstance(sub.value, ast.Call) and isinstance(sub.value.func, ast.Attribute) \
+                        and sub.value.func.attr == "pop" and is_queue(sub.value.func.value):
+                    ends.append(self._index_end(sub.value.args, fn))
+        return ends
+
+    def read(self):
+        """-> (pop_end, default or None)"""
+        cands = self.locate()
+        if not cands:
+            self.notes.append("the function installed as input() was not found")
+            return "unknown", None
+        all_leaves, fns = [], []
+        self._inlined = []
+        for fn, _scope in cands:
+            fns.append(fn)
+            queues = self._queue_names(fn) if not isinstance(fn, ast.Lambda) else set()
+            if isinstance(fn, ast.Lambda):
+                all_leaves += self.leaves(fn.body, fn, queues, 0, frozenset())
+                continue
+            rets = [r for r in _walk_no_nested(fn) if isinstance(r, ast.Return)]
+            if not rets:
+                all_leaves.append(("unknown", "no return"))
+            for r in rets:
+                all_leaves += self.leaves(r.value, fn, queues, 0, frozenset()) if r.value is not None \
+                    else [("unknown", "bare return")]
+        fns += self._inlined
+        unknown = [l for l in all_leaves if l[0] == "unknown"]
+        pops = {l[1] for l in all_leaves if l[0] == "pop"}
+        peeks = {l[1] for l in all_leaves if l[0] == "peek"}
+        consts = {l[1] for l in all_leaves if l[0] == "const"}
+        removed = self._removals(fns)
+        self.notes.append("leaves: " + ", ".join(sorted({"%s:%s" % (l[0], l[1] if len(l) > 1 else "") for l in all_leaves})))
+        if unknown:
+            return "unknown", None
+        ends = set(pops)
+        if peeks:
+            # value read by index and removed by a separate statement: both must name the same end
+            if pops or len(peeks) != 1 or set(removed) != peeks:
+                return "unknown", (consts.pop() if len(consts) == 1 else None)
+            ends = set(peeks)
+        elif removed:
+            return "unknown", (consts.pop() if len(consts) == 1 else None)
+        pop_end = ends.pop() if len(ends) == 1 else "unknown"
+        default = consts.pop() if len(consts) == 1 else None
         return pop_end, default
-    pops = []
-    consts = []
-    for sub in ast.walk(fn):
-        if isinstance(sub, ast.Call) and isinstance(sub.func, ast.Attribute) and sub.func.attr == "pop" \
-                and _is_self_attr(sub.func.value, "inputs"):
-            pops.append(sub)
-        if isinstance(sub, ast.Assign) and len(sub.targets) == 1 and isinstance(sub.targets[0], ast.Name) \
-                and sub.targets[0].id == "value_entered" and isinstance(sub.value, ast.Constant) \
-                and isinstance(sub.value.value, str):
-            consts.append(sub.value.value)
-    if len(pops) == 1:
-        a = pops[0].args
-        if len(a) == 1 and isinstance(a[0], ast.Constant) and a[0].value == 0:
-            pop_end = "front"
-        elif not a or (len(a) == 1 and isinstance(a[0], ast.UnaryOp) and isinstance(a[0].op, ast.USub)
-                       and isinstance(a[0].operand, ast.Constant) and a[0].operand.value == 1):
-            pop_end = "back"
-    if len(consts) == 1:
-        default = consts[0]
-    return pop_end, default
+
+
+# --------------------------------------------------------------------------
+# measuring the same three facts on a fresh sandbox
+
+def _call(events, kind="call"):
+    return {"k": "exec", "kind": kind, "pre": None, "events": events, "raises": False, "student_file": True}
+
+
+def probe():
+    """-> {"guard": 4-tuple over OBSERVATIONS or None, "pop_end": front/back/unknown, "default": str or None, "notes": [...]}"""
+    import sandboxio_common as sc
+    notes = []
+    out = {"guard": None, "pop_end": "unknown", "default": None, "notes": notes}
+    # -- guard: does an execution with / without own text, after one with / without text, lengthen the line view?
+    own_texts = ["y\n", "y", " ", "\n", "\x0c", "a\n\nb \n", "\xa0\n"]
+    prior_texts = ["x\n", " "]
+    try:
+        table = []
+        for p, o in OBSERVATIONS:
+            seen = set()
+            for prior in (prior_texts if p else [None]):
+                targets = [_call([["w", t]]) for t in own_texts] + [_call([["p", ["v"], " ", "\n"]], "run")] if o else \
+                    [_call([]), _call([["w", ""]]), _call([], "run"), _call([], "eval")]
+                for target in targets:
+                    ops = ([_call([["w", prior]])] if p else []) + [target]
+                    obs = sc.run_real({"ops": ops})[0]
+                    before, after = obs[-2]["lines"], obs[-1]["lines"]
+                    if any(x["err"] for x in obs) or after[:len(before)] != before:
+                        seen.add("odd")
+                    else:
+                        seen.add(len(after) > len(before))
+            if len(seen) != 1 or "odd" in seen:
+                notes.append("guard: observation prior=%s own=%s is not uniform: %s" % (p, o, sorted(map(str, seen))))
+                table = None
+                break
+            table.append(seen.pop())
+        out["guard"] = tuple(table) if table is not None else None
+    except Exception as e:  # noqa: the probe could not run
+        notes.append("guard probe failed: %s: %s" % (type(e).__name__, e))
+    # -- which end of the queue two reads are served from, and what is left
+    try:
+        ends = set()
+        for q in (["a", "b", "c"], ["1", "2"], ["w", "x", "y", "z", "w"]):
+            for pre in (False, True):
+                ops = ([] if pre else [{"k": "set_input", "arg": ["many", q], "clear": True}]) + [_call([["r", "p"], ["r0"]])]
+                if pre:
+                    ops[-1]["pre"] = ["many", q]
+                obs, _ctx, student = sc.run_real({"ops": ops})
+                got, left = student[-1], obs[-1]["inputs"]
+                if got == q[:2] and left == ["q"] + q[2:] and obs[-1]["last_in"] == q[:2]:
+                    ends.add("front")
+                elif got == [q[-1], q[-2]] and left == ["q"] + q[:-2]:
+                    ends.add("back")
+                else:
+                    ends.add("unknown")
+        out["pop_end"] = ends.pop() if len(ends) == 1 else "unknown"
+        if len(ends) > 1:
+            notes.append("pop end not uniform")
+    except Exception as e:  # noqa
+        notes.append("pop probe failed: %s: %s" % (type(e).__name__, e))
+    # -- the default: reads from an empty and from an exhausted queue
+    try:
+        ops = [_call([["r", "p"], ["r0"]]), {"k": "set_input", "arg": ["many", ["a"]], "clear": True},
+               _call([["r0"], ["r", "q"], ["r0"]], "run"), {"k": "clear_input"}, _call([["r", 5]], "eval")]
+        obs, _ctx, student = sc.run_real({"ops": ops})
+        served = list(student[1]) + list(student[3][1:]) + list(student[5])
+        recorded = list(obs[1]["last_in"]) + list(obs[3]["last_in"][1:]) + list(obs[5]["last_in"])
+        vals = set(map(repr, served + recorded))
+        if len(served) == 5 and len(vals) == 1 and isinstance(served[0], str):
+            out["default"] = served[0]
+        else:
+            notes.append("default not uniform: %s" % sorted(vals)[:4])
+    except Exception as e:  # noqa
+        notes.append("default probe failed: %s: %s" % (type(e).__name__, e))
+    return out
+
+
+# --------------------------------------------------------------------------
+
+def combine(read, measured, unknown, label, notes):
+    """reading is primary; the measurement confirms it, replaces an `unknown` reading, or - if it contradicts a
+    definite reading - turns the fact into `unknown`"""
+    if read != unknown and measured != unknown:
+        if read == measured:
+            return read, "read, confirmed by measurement"
+        notes.append("%s: reading %r contradicts measurement %r" % (label, read, measured))
+        return unknown, "CONFLICT"
+    if read != unknown:
+        return read, "read (measurement unavailable)"
+    if measured != unknown:
+        return measured, "probed"
+    return unknown, "unknown"
+
+
+def read_source(path=None):
+    path = path or os.path.join(REPO, "pedal", "sandbox", "sandbox.py")
+    with open(path, encoding="utf-8") as fh:
+        return Source(ast.parse(fh.read()))
+
+
+def facts(use_probe=True):
+    notes = []
+    src = read_source()
+    try:
+        guard_read = GuardReader(src).read()
+    except Exception as e:  # noqa: a shape the reader does not survive is a shape it does not understand
+        guard_read = b_unknown("reader failed: %s: %s" % (type(e).__name__, e))
+    tr = TrackerReader(src)
+    try:
+        pop_read, default_read = tr.read()
+    except Exception as e:  # noqa
+        pop_read, default_read = "unknown", None
+        tr.notes.append("reader failed: %s: %s" % (type(e).__name__, e))
+    notes += ["tracker: " + n for n in tr.notes]
+    measured = probe() if use_probe else {"guard": None, "pop_end": "unknown", "default": None, "notes": ["probe off"]}
+    notes += ["probe: " + n for n in measured["notes"]]
+
+    read_table = b_table(guard_read)
+    table, guard_src = combine(read_table, measured["guard"], None, "guard", notes)
+    if table is None:
+        guard = guard_read if b_has_unknown(guard_read) and guard_src != "CONFLICT" else b_unknown(guard_src)
+    elif guard_src == "probed":
+        guard = b_from_table(table)
+    else:
+        guard = guard_read
+    pop_end, pop_src = combine(pop_read, measured["pop_end"], "unknown", "pop end", notes)
+    default, default_src = combine(default_read, measured["default"], None, "default", notes)
+    return {"guard": guard, "guard_read": b_text(guard_read), "guard_source": guard_src,
+            "guard_table": None if table is None else ["prior=%d own=%d -> %d" % (p, o, v)
+                                                       for (p, o), v in zip(OBSERVATIONS, table)],
+            "pop_end": pop_end, "pop_source": pop_src, "default": default, "default_source": default_src,
+            "notes": notes}
+
+
+def _ascii(text):
+    return "".join(c if " " <= c <= "~" else "?" for c in text)
 
 
 def translate():
-    path = os.path.join(REPO, "pedal", "sandbox", "sandbox.py")
-    with open(path, encoding="utf-8") as fh:
-        tree = ast.parse(fh.read())
-    guard = guard_kind(tree)
-    pop_end, default = tracker_facts(tree)
+    f = facts()
+    guard, pop_end, default = f["guard"], f["pop_end"], f["default"]
     src = "\n".join([
         "/- GENERATED by harness/translate_sandboxio.py from the tree under test. Do not edit. -/",
         "namespace Pedal.Gen.SandboxIO",
         "",
-        "/-- What `Sandbox.append_output` tests before it extends the line view. -/",
-        "inductive Guard where",
-        "  | own          -- `if raw_output:`       (this execution's text)",
-        "  | accumulated  -- `if self.raw_output:`  (everything since the last clear)",
-        "  | always       -- no guard at all",
-        "  | unknown      -- a test the translator does not understand",
-        "  deriving Repr, DecidableEq",
+        "/-- When `Sandbox.append_output` touches the line view: a boolean expression over what one call can see.",
+        "`own`: the text of this execution is non-empty; `prior`: the raw output before the call is non-empty;",
+        "`acc`: the raw output after the call is non-empty; `unknown`: something the translator does not understand. -/",
+        "inductive GuardExpr where",
+        "  | own | prior | acc",
+        "  | const (b : Bool)",
+        "  | not (e : GuardExpr)",
+        "  | and (a b : GuardExpr)",
+        "  | or (a b : GuardExpr)",
+        "  | unknown",
+        "  deriving Repr",
         "",
-        "/-- Which end of `self.inputs` `_input_tracker` pops. -/",
+        "/-- Which end of `self.inputs` the mocked `input` takes its value from. -/",
         "inductive PopEnd where",
         "  | front | back | unknown",
         "  deriving Repr, DecidableEq",
         "",
-        "def appendGuard : Guard := .%s" % guard,
+        "-- " + f["guard_source"] + "; as read: " + _ascii(f["guard_read"])[:200],
+        "def appendGuard : GuardExpr := %s" % b_lean(guard),
+        "-- " + f["pop_source"],
         "def popEnd : PopEnd := .%s" % pop_end,
+        "-- " + f["default_source"],
         "def defaultInput : String := %s" % lean_str(default if default is not None else ""),
         "def defaultKnown : Bool := %s" % ("true" if default is not None else "false"),
         "",
@@ -126,8 +1092,19 @@ def translate():
     ])
     changed = write_if_changed(OUT, src)
     return {"file": os.path.relpath(OUT, LEAN_DIR), "sha1": hashlib.sha1(src.encode()).hexdigest()[:12],
-            "changed": changed, "guard": guard, "pop_end": pop_end, "default": default}
+            "changed": changed, "guard": b_text(guard), "guard_read": f["guard_read"], "guard_source": f["guard_source"],
+            "guard_table": f["guard_table"], "pop_end": pop_end, "pop_source": f["pop_source"], "default": default,
+            "default_source": f["default_source"], "notes": f["notes"]}
 
 
 if __name__ == "__main__":
-    print(translate())
+    import json
+    import sys
+    from common import use_repo
+    use_repo()
+    if "--facts" in sys.argv:      # read + measure, do not write the generated file
+        f = facts()
+        f["guard"] = b_text(f["guard"])
+        print(json.dumps(f, indent=1))
+    else:
+        print(json.dumps(translate(), indent=1))
